@@ -16,6 +16,10 @@
 const char *harness_name = "c17_endpoints";
 
 #define HARD (-(EIO))
+/* hard errors a driver may report: nothing the library gives a meaning to (it does to EINTR, EAGAIN, ENODATA,
+ * ENOMEM), small and large magnitudes, values whose low bits look like counts */
+static const int hard_codes[] = { -EIO, -EPIPE, -ETIMEDOUT, -EBADF, -EPERM, -ECONNRESET, -4095, -65541, -0x7fffff00, -256, -EILSEQ };
+#define NHARD (sizeof hard_codes / sizeof hard_codes[0])
 
 enum { A_ONE, A_ZERO, A_EINTR, A_EAGAIN, A_HARD, A_TWO, A_K, A_ALL, NACT };
 static const char actch[] = "10iaH2kA";
@@ -180,6 +184,7 @@ exact_get(int chunk, uint64_t code, size_t slen, size_t N)
 {
     struct drv d;
     drv_init(&d, 0, chunk, code, slen, 1000);
+    d.hard_code = hard_codes[(code + N) % NHARD];
     d.bound = (unsigned)(8 * N + slen + 8);
     unsigned char *dst = vh_arena(N);
     d.base = chunk ? dst : NULL; /* octet drivers get a pointer per octet: checked through content */
@@ -198,7 +203,7 @@ exact_get(int chunk, uint64_t code, size_t slen, size_t N)
         vh_fail("asks-beyond-remaining", key, "script=%s N=%zu", drv_str(&d), N);
     if (d.hard_returned) {
         VH_COUNT("exact get: hard error path");
-        if (rc != HARD)
+        if (rc != d.hard_code)
             vh_fail("hard-error-not-returned", key, "script=%s N=%zu rc=%zd", drv_str(&d), N, rc);
         if (d.calls_after_hard)
             vh_fail("retry-after-hard-error", key, "script=%s N=%zu", drv_str(&d), N);
@@ -224,6 +229,7 @@ exact_put(int chunk, uint64_t code, size_t slen, size_t N)
 {
     struct drv d;
     drv_init(&d, 1, chunk, code, slen, 1000);
+    d.hard_code = hard_codes[(code + N + 3) % NHARD];
     d.bound = (unsigned)(8 * N + slen + 8);
     unsigned char *src = vh_arena(N);
     for (size_t i = 0; i < N; i++)
@@ -246,7 +252,7 @@ exact_put(int chunk, uint64_t code, size_t slen, size_t N)
         vh_fail("content", key, "script=%s N=%zu: sink received %s", drv_str(&d), N, vh_hex(d.sunk, d.pos));
     if (d.hard_returned) {
         VH_COUNT("exact put: hard error path");
-        if (rc != HARD)
+        if (rc != d.hard_code)
             vh_fail("hard-error-not-returned", key, "script=%s N=%zu rc=%zd", drv_str(&d), N, rc);
         if (d.calls_after_hard)
             vh_fail("retry-after-hard-error", key, "script=%s N=%zu", drv_str(&d), N);
@@ -266,6 +272,7 @@ atmost(int is_sink, int chunk, uint64_t code, size_t slen, size_t N)
 {
     struct drv d;
     drv_init(&d, is_sink, chunk, code, slen, 1000);
+    d.hard_code = hard_codes[(code + N + 5) % NHARD];
     d.bound = (unsigned)(8 * N + slen + 8);
     unsigned char *mem = vh_arena(N);
     for (size_t i = 0; i < N; i++)
@@ -425,6 +432,8 @@ plumb(int fun, int srcchunk, int snkchunk, unsigned scode, size_t sl, unsigned k
     drv_init(&kd, 1, snkchunk, 0, 0, 1000);
     pl_script(&sd, scode, sl);
     pl_script(&kd, kcode, kl);
+    sd.hard_code = hard_codes[(scode + kcode + N) % NHARD];
+    kd.hard_code = hard_codes[(scode + 3 * kcode + L) % NHARD];
     if (sink_full)
         kd.hard_code = -ENOMEM; /* what the driver contract prescribes for a sink that ran out of space */
     sd.bound = kd.bound = (unsigned)(8 * (N + L) + 24);
